@@ -511,7 +511,108 @@ func runC15(c *core.Ctx) {
 	for i := 0; i < nm/c.NShards; i++ {
 		metaGenerated(c, i)
 		metaFixedPoint(c, i)
+		if i%3 == 0 {
+			metaEntities(c)
+		}
 	}
+}
+
+// metaEntities wraps generated EntityDescriptors into (nested) EntitiesDescriptor values: the wrapper's own instant and
+// duration must survive, and every contained EntityDescriptor must come out exactly as it does from a standalone round trip.
+func metaEntities(c *core.Ctx) {
+	r := c.Rng
+	var gen func(depth int) saml.EntitiesDescriptor
+	gen = func(depth int) saml.EntitiesDescriptor {
+		var w saml.EntitiesDescriptor
+		if r.Intn(2) == 0 {
+			t := fx.Epoch.Add(time.Duration(r.Int63n(int64(100000*time.Hour))) + time.Duration(r.Intn(1e9)))
+			w.ValidUntil = &t
+		}
+		if r.Intn(2) == 0 {
+			d := time.Duration(r.Int63n(int64(1000 * time.Hour)))
+			if r.Intn(3) == 0 {
+				d = time.Duration(1+r.Intn(999)) * time.Millisecond
+			}
+			w.CacheDuration = &d
+		}
+		if r.Intn(2) == 0 {
+			w.Name = strPtr(genText(c))
+		}
+		if r.Intn(2) == 0 {
+			w.ID = strPtr("_w" + genText(c))
+		}
+		for i := r.Intn(3); i > 0; i-- {
+			w.EntityDescriptors = append(w.EntityDescriptors, *genEntityDescriptor(c))
+		}
+		if depth < 2 {
+			for i := r.Intn(2); i > 0; i-- {
+				w.EntitiesDescriptors = append(w.EntitiesDescriptors, gen(depth+1))
+			}
+		}
+		return w
+	}
+	w0 := gen(0)
+	c.Eval()
+	b0, err := xml.Marshal(w0)
+	if err != nil {
+		c.Violation("C15/entities/marshal-error", err.Error(), nil)
+		return
+	}
+	var w1 saml.EntitiesDescriptor
+	if err := xml.Unmarshal(b0, &w1); err != nil {
+		c.Violation("C15/entities/reparse-error", err.Error(), map[string]any{"xml": truncate(string(b0), 4000)})
+		return
+	}
+	c.Nontrivial(fmt.Sprintf("me:%x", fnvBytes(b0)))
+	var cmp func(a, b *saml.EntitiesDescriptor, path string) string
+	cmp = func(a, b *saml.EntitiesDescriptor, path string) string {
+		switch {
+		case (a.ValidUntil == nil) != (b.ValidUntil == nil):
+			return path + ".ValidUntil presence"
+		case a.ValidUntil != nil && !b.ValidUntil.Equal(a.ValidUntil.Round(time.Millisecond)):
+			return fmt.Sprintf("%s.ValidUntil %v vs %v", path, a.ValidUntil, b.ValidUntil)
+		case (a.CacheDuration == nil) != (b.CacheDuration == nil):
+			return path + ".CacheDuration presence"
+		case a.CacheDuration != nil && *a.CacheDuration != *b.CacheDuration:
+			return fmt.Sprintf("%s.CacheDuration %v vs %v", path, *a.CacheDuration, *b.CacheDuration)
+		case (a.Name == nil) != (b.Name == nil) || a.Name != nil && *a.Name != *b.Name:
+			return path + ".Name"
+		case (a.ID == nil) != (b.ID == nil) || a.ID != nil && *a.ID != *b.ID:
+			return path + ".ID"
+		case len(a.EntityDescriptors) != len(b.EntityDescriptors):
+			return fmt.Sprintf("%s: %d vs %d EntityDescriptors", path, len(a.EntityDescriptors), len(b.EntityDescriptors))
+		case len(a.EntitiesDescriptors) != len(b.EntitiesDescriptors):
+			return fmt.Sprintf("%s: %d vs %d nested EntitiesDescriptors", path, len(a.EntitiesDescriptors), len(b.EntitiesDescriptors))
+		}
+		for i := range a.EntityDescriptors {
+			// what a standalone round trip of the same value gives
+			sb, err := xml.Marshal(a.EntityDescriptors[i])
+			if err != nil {
+				return path + ": standalone marshal " + err.Error()
+			}
+			var alone saml.EntityDescriptor
+			if err := xml.Unmarshal(sb, &alone); err != nil {
+				return path + ": standalone reparse " + err.Error()
+			}
+			x, y := reflect.ValueOf(&alone), reflect.ValueOf(&b.EntityDescriptors[i])
+			normalize(x)
+			normalize(y)
+			if d := firstDiff(x, y, fmt.Sprintf("%s.EntityDescriptors[%d]", path, i)); d != "" {
+				return "contained descriptor differs from its standalone round trip: " + d
+			}
+		}
+		for i := range a.EntitiesDescriptors {
+			if d := cmp(&a.EntitiesDescriptors[i], &b.EntitiesDescriptors[i], fmt.Sprintf("%s.EntitiesDescriptors[%d]", path, i)); d != "" {
+				return d
+			}
+		}
+		return ""
+	}
+	if d := cmp(&w0, &w1, "EntitiesDescriptor"); d != "" {
+		c.Violation("C15/entities/"+pathClass(d), "EntitiesDescriptor round trip: "+d, map[string]any{"xml": truncate(string(b0), 6000)})
+		return
+	}
+	c.Count("entities_descriptor_roundtrip_ok")
 }
 
 func genDurationString(c *core.Ctx) string {
